@@ -730,6 +730,52 @@ func runC17(rep *Report, r *Rng, tier string) {
 			return
 		}
 	}
+	// a data source opened before its file exists: queries fail cleanly; once the file is there the same handle
+	// and new handles on the same DSN work; after all handles are closed and the file has been replaced by another
+	// index, a new handle sees the new contents (nothing outlives the last close)
+	for li, opts := range drvOpts {
+		if rep.NViol() >= 6 {
+			break
+		}
+		late := scratch(fmt.Sprintf("drv-late-%d.updog", li))
+		os.Remove(late)
+		dsn := "file:" + late + opts
+		db, err := sql.Open("updog", dsn)
+		if err != nil {
+			continue
+		}
+		first := rowsString(db, env.probe)
+		copyFile(env.files[0], late)
+		second := rowsString(db, env.probe)
+		db2, _ := sql.Open("updog", dsn)
+		third := rowsString(db2, env.probe)
+		db.Close()
+		db2.Close()
+		copyFile(env.files[1], late) // same path, different index
+		db3, _ := sql.Open("updog", dsn)
+		fourth := rowsString(db3, env.probe)
+		db3.Close()
+		rep.Eval("late-file"+opts, true)
+		rep.Count("late-and-regenerated-file")
+		got := fmt.Sprintf("%s | %s | %s | %s", first, second, third, fourth)
+		want := fmt.Sprintf("err | %s | %s | %s", env.expected[0], env.expected[0], env.expected[1])
+		if got != want {
+			sig := "C17:wrong-rows"
+			if strings.Contains(got, "panic") {
+				sig = "C17:panic"
+			} else if strings.Contains(got, "hang") {
+				sig = "C17:hang"
+			}
+			rep.Violate(Violation{Kind: "history", Signature: sig, What: "DSN " + dsn + ": query before the file exists; file created; same handle; second handle; all closed; file replaced by another index; new handle", Expected: trunc(want, 600), Actual: trunc(got, 600), Case: map[string]any{"late": opts}})
+			if strings.Contains(got, "hang") {
+				return
+			}
+		}
+		if s := releasedProbe(late); s != "released" {
+			rep.Violate(Violation{Kind: "history", Signature: "C17:file-not-released", What: "late file still locked after all handles were closed", Expected: "released", Actual: s, Case: map[string]any{"late": opts}})
+		}
+		os.Remove(late)
+	}
 	// churn: goroutines open, query and close handles on the SAME data source concurrently, so that last closes
 	// overlap with opens
 	rounds := 40
